@@ -3,7 +3,7 @@ import random
 
 from harness import common, corpus, diffexec, finding_classes, gen_assign, gen_cf, propkit
 
-VFILES = ["theories/Unparse.v", "theories/StrLit.v", "theories/SingleLine.v"]
+VFILES = ["theories/Unparse.v", "theories/StrLit.v", "theories/SingleLine.v", "theories/ParseTie.v"]
 
 
 def _work(job):
@@ -50,8 +50,8 @@ def run(chk, build, replay=None):
     chk.trusted += [
         "C02: the one-line theorem is about the project's own unparser (model tied by string correspondence); "
         "the ast.unparse path is CPython's code and is only observed (an output with a line break falls back to the project's unparser)",
-        "that the text is exactly one expression rests on CPython's compile() run on every output (support) until the C03 "
-        "round-trip theorem covers it",
+        "that the text is exactly one expression: theorem C02_core_output_is_one_expression_partial for output trees inside the "
+        "core of C03 (counted in the evidence), CPython's compile() on every explored output otherwise (support)",
     ]
     rng = random.Random(chk.seed * 13 + 2)
     replayed = propkit.load_replay_sources(replay)
@@ -86,6 +86,23 @@ def run(chk, build, replay=None):
                     continue
                 chk.add_violation("conversion returned text that is not a single-line expression",
                                   source=s[:3000], config=tr, status=st, detail=detail[:600])
+    # how many of the explored outputs the "exactly one expression" theorem applies to (the core of C03)
+    import ast as _ast
+    import symtable as _symtable
+    import sys as _sys
+    from harness import coretok, lowercorr
+    import oneliner  # noqa
+    conv = _sys.modules["oneliner.convert"].convert
+    n_out = n_core = 0
+    for s in srcs[:300]:
+        for chain, short in ((False, False), (True, True)):
+            try:
+                out = conv(_ast.parse(s), _symtable.symtable(s, "<s>", "exec"), lowercorr.make_configs(chain, short))
+                n_out += 1
+                n_core += bool(coretok.core_top_py(out))
+            except (Exception, RecursionError):
+                continue
+    chk.coverage["outputs_inside_the_core_of_the_one_expression_theorem"] = {"outputs": n_out, "inside": n_core}
     counts["known-finding-instances"] = known
     chk.coverage.setdefault("direct_oracle", {}).update(counts)
     propkit.replay_known(chk, "C02")
